@@ -11,12 +11,16 @@ from . import common as C
 from . import xtypes as X
 from .world import World
 
-PROPERTIES = ["C01", "C03", "C05", "C06", "C08", "C09", "C10", "C11"]
+PROPERTIES = ["C01", "C03", "C05", "C06", "C08", "C09", "C10", "C11", "C20"]
 
 
 # ----------------------------------------------------------------------------- clause ownership
 def owner(op, clause):
     """which property a failing clause of XoHeapTrace belongs to, given the operation it failed at"""
+    if clause.startswith("pickle:") or op == "pickle":
+        return "C20"
+    if clause.startswith("alloc:"):
+        return "C04"
     if clause.startswith("fmt:"):
         return "C05"
     if clause.startswith("nest:") or clause.startswith("size:"):
@@ -103,6 +107,8 @@ SUITE = [
     X.struct(X.ref(X.arr(I16, [-1])), X.struct(X.ref(_IN), I8)),
     X.arr(X.ref(_IN), [-1]), X.arr(X.struct(X.ref(X.arr(F64, [-1])), I64), [-1]),
     X.struct(X.uref(_IN, X.struct(I8)), X.uref(X.arr(F64, [2]))),
+    X.struct(X.uref(X.arr(F64, [-1]), _IN), I8, X.ref(X.arr(I16, [-1, 2]))),
+    X.arr(X.uref(X.arr(I16, [-1, 2]), X.arr(X.STR, [-1])), [-1]),
 ]
 
 
@@ -257,6 +263,49 @@ def prog_refs(w, rng):
                 return
 
 
+def prog_pickle(w, rng):
+    """C20: objects (structs, arrays, hybrid objects; with references; several per buffer, several buffers) pickled together,
+    then reads, writes and allocations on both sides"""
+    keys = []
+    for n in range(rng.randint(1, 4)):
+        b = rng.randrange(2)
+        if rng.random() < 0.35:
+            for _ in range(10):
+                tx = pick_type(rng, True)
+                if tx["k"] == "struct" and tx["f"]:
+                    break
+            else:
+                tx = SUITE[1]
+            k = w.new_hybrid(tx, b)
+            if k is None and w.steps[-1]["op"] == "rejected":
+                return
+            if k is None:
+                k = w.new(tx, b)
+        else:
+            k = w.new(pick_type(rng, True), b)
+        if k is None:
+            return
+        keys.append(k)
+    group = [k for k in keys if rng.random() < 0.8] or keys[:1]
+    if rng.random() < 0.3:       # referents may be pickled as members of the group as well
+        extra = [k for k in w.handles if k not in group and rng.random() < 0.3]
+        group += extra
+    twins = w.pickle(group)
+    if not twins:
+        return
+    for _ in range(rng.randint(2, 6)):
+        x = rng.random()
+        side = rng.choice(group + twins)
+        if x < 0.55:
+            if w.set(side, allow=("null", "alias", "new")) is False and w.steps[-1].get("exc"):
+                return
+        elif x < 0.8:
+            if w.new(pick_type(rng, False), rng.choice(twins)[0]) is None:      # the unpickled buffer is still a working allocator
+                return
+        else:
+            w.grow(rng.choice(twins)[0])
+
+
 PROGRAMS = {
     "C01": lambda w, rng: prog_construct(w, rng),
     "C05": lambda w, rng: prog_construct(w, rng),
@@ -265,6 +314,7 @@ PROGRAMS = {
     "C10": lambda w, rng: prog_set(w, rng),
     "C08": prog_refs,
     "C11": prog_err,
+    "C20": prog_pickle,
     "C09": prog_copy,
 }
 COUNTS = {"quick": 160, "thorough": 3000}
